@@ -1,7 +1,7 @@
 (** C08 — independent implementations of the same model agree.  Property theorems only. *)
 From Coq Require Import Reals List ZArith.
 From Interval Require Import Real.Xreal Interval.Interval Eval.Prog Eval.Tree Eval.Eval.
-From FeosVerif Require Import ProgSem AssocC08 Canon CanonDeriv AD PRTextbookC08.
+From FeosVerif Require Import ProgSem ProgSemBig AssocC08 Canon CanonDeriv AD PRTextbookC08.
 From Coquelicot Require Import Coquelicot.
 Local Open Scope R_scope.
 
@@ -15,8 +15,8 @@ Print Assumptions C08_identical_programs_agree.
 (** The verified evaluator encloses the exact value of a program at dyadic inputs, so enclosures of
     the two members of a pair that do not intersect prove that the members differ at that state. *)
 Theorem C08_enclosure_sound : forall prec P inp k,
-  contains (I.convert (nth k (evalI prec P inp) I.nai)) (out_ext P (inputs_R inp) k).
-Proof. exact evalI_correct. Qed.
+  contains (IB.convert (nth k (evalIB prec P inp) IB.nai)) (out_ext P (inputs_R inp) k).
+Proof. exact evalIB_correct. Qed.
 Print Assumptions C08_enclosure_sound.
 
 (** Closed-form association (sites A and B on one component, strength D, site densities ra, rb — the
